@@ -1,4 +1,5 @@
 PROP = dict(
+        tie_coq=["Properties/TieC10.v"],
         coq="Properties/C10.v",
         workloads=[
             dict(name="dutch-price", go_test="TestC10Price", runner="C10-price",
